@@ -61,7 +61,7 @@ fn run_numeric(text: &[u8]) -> (Vec<Result<NumEntry, String>>, End) {
 fn spec_values(spec: ChannelSpec) -> Result<Vec<i64>, String> {
     let mut v = Vec::new();
     for (k, d) in spec.into_iter().enumerate() {
-        if k > 100_000 {
+        if k > 200_000 {
             return Err("spec iterator does not terminate".into());
         }
         match d {
@@ -486,8 +486,13 @@ fn run(e: &Engine) {
             big.push(Case { channel: false, text: rep("", "1,", n, ",2") });
             big.push(Case { channel: true, text: rep("@", "1,", n, "2:3:4") });
         }
-        for n in [255usize, 256, 257, 300] {
+        for n in [255usize, 256, 257, 300, 65_534, 65_535, 65_536, 65_537, 70_000] {
             big.push(Case { channel: true, text: rep("@", "1!", n, "2") });
+            if n > 1000 {
+                // ... and as one end of a range whose other end has one dimension / the same number
+                big.push(Case { channel: true, text: B(format!("@5:{}2", "1!".repeat(n)).into_bytes()) });
+                big.push(Case { channel: true, text: B(format!("@{}2:{}3", "1!".repeat(n), "4!".repeat(n)).into_bytes()) });
+            }
         }
         for w in 1..=300usize {
             let z = "0".repeat(w);
